@@ -5,13 +5,17 @@ open Lean Oas3.Driver Oas3.Sse Oas3.EventStream
 
 namespace Oas3.Driver.Sse
 
-/-- `serde_json::Deserializer::from_str(data)` + `deserialize::<Value>` WITHOUT `end()`: a JSON
-value must parse at the front; trailing text is not looked at. (Payload alphabet of the generated
-cases is restricted to where Lean's and serde_json's grammars agree.) -/
+/-- `serde_json::from_str`-like decoding of an event's data: ONE JSON value, white space around it, nothing else (the
+property: "the decoded payload, or a decode error for that event alone").  Until `fix:` (F20-5) `EventStream::parse_event` did
+not call `end()` and this reference had mirrored that: data `3\n4` or `1 x` counted as the payload `3` / `1`.  (Payload
+alphabet of the generated cases is restricted to where Lean's and serde_json's grammars agree.) -/
 def decJson (d : List Char) : Json :=
   let p : Std.Internal.Parsec.String.Parser Json := do
     Std.Internal.Parsec.String.ws
-    Lean.Json.Parser.anyCore
+    let v ← Lean.Json.Parser.anyCore
+    Std.Internal.Parsec.String.ws
+    Std.Internal.Parsec.eof
+    pure v
   match Std.Internal.Parsec.String.Parser.run p (String.ofList d) with
   | .ok v => Json.mkObj [("ok", v)]
   | .error _ => Json.str "jsonerr"
